@@ -1,13 +1,127 @@
 (* C10 — Simulated experiments replay the benchmark table faithfully in values and time.
-   Only statements; every proof is [exact <lemma of proofs/SimProofs.v>].
-   The model (model/Sim.v) is the simulator backend + tabular blackbox backend of /repo;
-   [S_] = all simulator settings (five delays, tuner_sleep_time, checkpointing flag, fixed
-   seed, the literals 0.01 and 1e-3), [tbl] = any benchmark table, [draw] = any seed oracle,
-   [ops] = any sequence of backend calls start/resume/pause/stop/fetch/busy/sleep with any
-   outside real time.  [run_ops] ends at the first call that raises. *)
+   Only statements; every proof is [exact <lemma of proofs/SimProofs.v>] plus unpacking glue.
+
+   The model (model/Sim.v) is the simulator backend + tabular blackbox backend of /repo.
+     S_   : all simulator settings (five delays, tuner_sleep_time, checkpointing flag, fixed
+            seed, the literals 0.01 = [eps] and 1e-3 = [nudge]) — arbitrary;
+     tbl  : the benchmark table, configuration -> seed -> rows of levels 1,2,.. — arbitrary
+            (any sizes, any rationals: non-monotone / noisy elapsed-time columns included);
+     draw : the seed oracle (np.random.randint) — any function;
+     ops  : any sequence of backend calls start / resume / pause / stop / fetch / busy / sleep,
+            each with any outside real time.  [run_ops] ends at the first call that raises.
+   A delivered result is (trial t, (run tag k, index i, result r, st_tuner_time ts)); the tag and
+   index are ghost data naming the job run ([runs st'] = log of executed job runs: trial, start
+   time = time of the start event, configuration, seed, resume level, reported results). *)
 From Verif Require Import model.Base model.Sim proofs.SimProofs.
+From Coq Require Import Qminmax Sorted Permutation.
 Open Scope Q_scope.
 
+(* ---- values ------------------------------------------------------------------------------ *)
+(* Every result delivered by fetch_status_results is the i-th report of a job run of that trial,
+   and that report carries exactly the table row of the run's configuration, the run's seed and
+   its level: level = resume point + i + 1 (resume point = the level the trial was paused at, with
+   checkpointing; 0 otherwise), metrics = the row's metrics, level <= max_resource.  The levels a
+   run reports are consecutive starting right after the resume point.  The seed of every run of a
+   trial is the trial's single seed (the fixed one, or the one stored for the trial). *)
+Theorem c10_values :
+  forall S_ tbl draw ops pre st' rs sts post,
+    run_ops S_ tbl draw init_state ops = pre ++ Ok (st', OutFetch rs sts) :: post ->
+    forall t k i r ts, In (t, (k, i, r, ts)) rs ->
+    exists run,
+      nth_error (runs st') k = Some run /\ run_trial run = t /\
+      nth_error (run_results run) i = Some r /\
+      (exists rw, nth_error (curve_of tbl (run_cfg run) (run_seed run))
+                            (resume_point S_ (run_rp run) + i) = Some rw /\
+                  res_level r = S (resume_point S_ (run_rp run) + i) /\
+                  res_metrics r = r_metrics rw /\
+                  match c_maxres (run_cfg run) with Some m => (res_level r <= m)%nat | None => True end) /\
+      map res_level (run_results run) =
+        seq (S (resume_point S_ (run_rp run))) (length (run_results run)) /\
+      match fixed_seed S_ with
+      | Some s0 => run_seed run = s0
+      | None => lookup t (seeds st') = Some (run_seed run)
+      end.
+Proof.
+  intros S_ tbl draw ops pre st' rs sts post H t k i r ts Hin.
+  destruct (fetch_delivered S_ tbl draw ops pre st' rs sts post H t k i r ts Hin)
+    as (run & A & B & C & D & E & F & _).
+  exists run. repeat split; assumption.
+Qed.
+Print Assumptions c10_values.
+
+(* ---- time stamps ------------------------------------------------------------------------- *)
+(* st_tuner_time = start time of that run + e + delay_on_trial_result, where e = the result's
+   elapsed time = "the table's elapsed time since the resume point" AFTER the documented repair:
+   [repaired] says e_0 = max(x_0, eps), e_{j+1} = max(x_{j+1}, e_j + eps) for the rebased column
+   x_j = table(level) - table(resume level) ([raw_job]).  Whenever that column is [spaced] (first
+   value >= eps, every step >= eps) e is the raw table difference itself.  Reading fixed here: the
+   repair is part of "the table's elapsed time"; for columns that violate the eps spacing the
+   raw-table equation is false by design and is not claimed. *)
+Theorem c10_timestamp :
+  forall S_ tbl draw ops pre st' rs sts post,
+    run_ops S_ tbl draw init_state ops = pre ++ Ok (st', OutFetch rs sts) :: post ->
+    forall t k i r ts, In (t, (k, i, r, ts)) rs ->
+    exists run,
+      nth_error (runs st') k = Some run /\ run_trial run = t /\
+      nth_error (run_results run) i = Some r /\
+      ts == run_te run + res_elapsed r + d_result S_ /\
+      repaired S_ None (raw_job S_ tbl (run_cfg run) (run_seed run) (run_rp run)) (run_results run) /\
+      (spaced S_ (eps S_) (raw_job S_ tbl (run_cfg run) (run_seed run) (run_rp run)) ->
+       exists rw, nth_error (curve_of tbl (run_cfg run) (run_seed run))
+                            (resume_point S_ (run_rp run) + i) = Some rw /\
+                  res_elapsed r == r_elapsed rw -
+                    offset tbl (run_cfg run) (run_seed run) (resume_point S_ (run_rp run))).
+Proof.
+  intros S_ tbl draw ops pre st' rs sts post H t k i r ts Hin.
+  destruct (fetch_delivered S_ tbl draw ops pre st' rs sts post H t k i r ts Hin)
+    as (run & A & B & C & _ & _ & _ & G & H1 & H2).
+  exists run. repeat split; assumption.
+Qed.
+Print Assumptions c10_timestamp.
+
+(* what [repaired] and [raw_job] mean, spelled out *)
+Theorem c10_repair_meaning :
+  forall S_ prev l l', repaired S_ prev l l' ->
+    (forall j r', nth_error l' j = Some r' ->
+       exists r, nth_error l j = Some r /\ res_level r' = res_level r /\ res_metrics r' = res_metrics r /\
+                 res_elapsed r <= res_elapsed r') /\
+    (forall a, nth_error l' 0 = Some a -> bound S_ prev <= res_elapsed a) /\
+    (forall j a b, nth_error l' j = Some a -> nth_error l' (S j) = Some b ->
+       res_elapsed a + eps S_ <= res_elapsed b).
+Proof.
+  intros S_ prev l l' H. split; [exact (repaired_nth S_ prev l l' H)|].
+  split; [exact (repaired_head S_ prev l l' H) | exact (repaired_step S_ prev l l' H)].
+Qed.
+Print Assumptions c10_repair_meaning.
+
+Theorem c10_raw_job_meaning :
+  forall S_ tbl c seed rp i r, nth_error (raw_job S_ tbl c seed rp) i = Some r ->
+    exists rw, nth_error (curve_of tbl c seed) (resume_point S_ rp + i) = Some rw /\
+               res_level r = S (resume_point S_ rp + i) /\
+               (match c_maxres c with Some m => (res_level r <= m)%nat | None => True end) /\
+               res_metrics r = r_metrics rw /\
+               res_elapsed r = r_elapsed rw - offset tbl c seed (resume_point S_ rp).
+Proof. exact raw_job_nth. Qed.
+Print Assumptions c10_raw_job_meaning.
+
+(* the start time of a run: start_trial / resume_trial at simulated time c queue a start event at
+   c + delay_start; the run created when the event is processed starts at the event's time, with
+   the trial's configuration and the level recorded by the last pause_trial(result) *)
+Theorem c10_run_start :
+  forall S_ tbl draw,
+    (forall st t dt st', schedule S_ tbl draw st t dt = Ok st' ->
+       exists h, In h (heap st') /\ h_ev h = EvStart /\ h_trial h = t /\
+                 h_time h == clock st' + d_start S_) /\
+    (forall st t te st', proc_start S_ tbl draw st t te = Ok st' ->
+       exists run tr, runs st' = runs st ++ [run] /\ nth_error (trials st) t = Some tr /\
+                      run_trial run = t /\ run_te run = te /\ run_cfg run = t_cfg tr /\
+                      run_rp run = lookup t (paused_at st)).
+Proof.
+  intros. split; [exact (schedule_start_event S_ tbl draw) | exact (proc_start_run S_ tbl draw)].
+Qed.
+Print Assumptions c10_run_start.
+
+(* ---- the clock ----------------------------------------------------------------------------- *)
 (* Simulated time never runs backwards: over any operation sequence, from any state, the clock
    after a later call is >= the clock after an earlier call (and >= the initial clock). *)
 Theorem c10_clock_monotone :
@@ -41,3 +155,95 @@ Theorem c10_stop_charge :
     clock_after_stop S_ c dt == c + dt + d_stop S_ + nudge S_ + d_stopc S_ + nudge S_.
 Proof. exact clock_after_stop_exact. Qed.
 Print Assumptions c10_stop_charge.
+
+(* ---- the event heap ------------------------------------------------------------------------ *)
+(* heapq with keys (time, insertion counter) is modelled as a list sorted by that key.  In every
+   state a call sequence passes through the list is strictly sorted (so the event popped next, the
+   head, has the smallest key of all queued events, FIFO on equal times) ... *)
+Theorem c10_heap_sorted :
+  forall S_ tbl draw ops pre st1 o1 rest,
+    run_ops S_ tbl draw init_state ops = pre ++ Ok (st1, o1) :: rest ->
+    StronglySorted key_lt (heap st1) /\
+    (forall h tl, heap st1 = h :: tl -> forall y, In y tl -> key_lt h y).
+Proof.
+  intros S_ tbl draw ops pre st1 o1 rest H.
+  destruct (reach_hinv S_ tbl draw _ _ (HInv_init) (run_ops_state_reach S_ tbl draw _ _ _ _ _ _ H)) as [Hs _].
+  split; [exact Hs|]. intros h tl E. rewrite E in Hs. exact (sorted_head_min h tl Hs).
+Qed.
+Print Assumptions c10_heap_sorted.
+
+(* ... and the key order is a strict total order on queued events, so the sorted arrangement of a
+   set of events is unique: any priority queue popping minimal keys (heapq) pops in list order. *)
+Theorem c10_heap_order_unique :
+  forall l1 l2, StronglySorted key_lt l1 -> StronglySorted key_lt l2 -> Permutation l1 l2 -> l1 = l2.
+Proof. exact sorted_unique. Qed.
+Print Assumptions c10_heap_order_unique.
+
+Theorem c10_heap_push_pop :
+  forall x l, Permutation (insert x l) (x :: l) /\
+              (StronglySorted key_lt l -> (forall y, In y l -> h_cnt y <> h_cnt x) ->
+               StronglySorted key_lt (insert x l)) /\
+              (forall f, StronglySorted key_lt l -> StronglySorted key_lt (filter f l)).
+Proof.
+  intros x l. split; [exact (insert_perm x l)|]. split; [exact (insert_sorted x l)|].
+  intros f. exact (filter_sorted f l).
+Qed.
+Print Assumptions c10_heap_push_pop.
+
+(* The reports of a job run leave the event queue in index order, each once: [J] (every queued
+   report names its run; queued reports of one run are keyed in index order; the heap is sorted) holds
+   initially, after every call and after every iteration of the event loop, and under [J] the
+   event popped next, if it is report i of run k, has the smallest index of all queued reports of
+   run k.  (eps >= 0: the repaired elapsed times of a run do not decrease.)
+   Not stated as a theorem: the bookkeeping after the pop (append to _next_results_to_fetch,
+   concatenation in fetch_status_results) keeps that order; it is covered by the correspondence
+   check and the independent checker only. *)
+Theorem c10_pop_in_order :
+  forall S_ tbl draw, 0 <= eps S_ ->
+    let J := fun st => IO S_ tbl st /\ HInv st in
+    J init_state /\
+    (forall st o st' out, J st -> step S_ tbl draw st o = Ok (st', out) -> J st') /\
+    (forall st h rest st', J st -> heap st = h :: rest ->
+       proc_event S_ tbl draw (set_heap st rest) h = Ok st' -> J st') /\
+    (forall st h rest, J st -> heap st = h :: rest ->
+       forall k i, is_res h k i -> forall h' i', In h' rest -> is_res h' k i' -> (i < i')%nat).
+Proof.
+  intros S_ tbl draw He J. split; [split; [exact (IO_init S_ tbl) | exact HInv_init]|].
+  split; [intros st o st' out [A B] Hs; split;
+          [exact (step_io S_ tbl draw He st o st' out A Hs) | exact (step_hinv S_ tbl draw st o st' out B Hs)]|].
+  split.
+  - intros st h rest st' [[A1 A2] B] Hh Hp. split; [split|].
+    + exact (proc_event_inv S_ tbl draw st rest h st' A1 Hh Hp).
+    + exact (proc_event_ord S_ tbl draw He st rest h st' A1 A2 Hh Hp).
+    + exact (proc_event_hinv S_ tbl draw st rest h st' B Hh Hp).
+  - intros st h rest [A B] Hh. exact (pop_in_order S_ tbl st h rest A B Hh).
+Qed.
+Print Assumptions c10_pop_in_order.
+
+(* the event loop of the model never stops for lack of fuel: it ends because no queued event is due *)
+Theorem c10_event_loop_total :
+  forall S_ tbl draw st, process_now S_ tbl draw st <> Err EFuel.
+Proof. exact process_now_enough. Qed.
+Print Assumptions c10_event_loop_total.
+
+(* ---- non-vacuity --------------------------------------------------------------------------- *)
+(* one configuration, one seed, three levels with elapsed times 1, 2, 2 (flat step: repaired),
+   default delays: start, fetch (level 1), pause at level 1, resume, fetch (levels 2 and 3 of the
+   second run, elapsed 1 and 1.01 since the resume point) *)
+Definition ex_settings : settings :=
+  mkSet (1#20) (1#20) (1#20) (1#20) (1#20) (1#10) true None (1#100) (1#1000).
+Definition ex_table : table := [[[mkRow 1 [5]; mkRow 2 [6]; mkRow 2 [7]]]].
+Definition ex_ops : list op :=
+  [OpStart (mkCfg 0 None) 0; OpFetch [0%nat] (3#2); OpPause 0 (Some 1%nat) 0;
+   OpResume 0 None 0; OpSleep; OpFetch [0%nat] 5].
+Example c10_example :
+  map (fun x => match x with
+                | Ok (_, OutFetch rs _) =>
+                    map (fun d : delivered => let '(_, (_, _, r, ts)) := d in
+                                              (res_level r, Qred (res_elapsed r), res_metrics r, Qred ts)) rs
+                | _ => []
+                end)
+      (run_ops ex_settings ex_table (fun _ => 0%nat) init_state ex_ops)
+  = [[]; [(1%nat, 1, [5], 11#10)]; []; []; [];
+     [(2%nat, 1, [6], 1351#500); (3%nat, 101#100, [7], 339#125)]].
+Proof. vm_compute. reflexivity. Qed.
